@@ -706,3 +706,47 @@ Proof. repeat split; vm_compute; reflexivity. Qed.
 (* with the early release the slot is free during the stall and the second offer gets it *)
 Theorem stall_scenario_early : stall_scenario true false 1 0 = Ok (1, true, 1).
 Proof. vm_compute. reflexivity. Qed.
+
+(* ================================================================ outbound transfer phases *)
+
+(* forgetting the phases gives exactly the outbound slot events of the repaired code *)
+Theorem out_phases_erase : forall o, erase_phases (out_phases false o) = out_events true o.
+Proof.
+  intros [|[| |[| |[| | | | |[| | |]]]]]; reflexivity.
+Qed.
+
+(* the code as it is: from the moment the slot is taken until the offer has ended (no transfer started, or the transfer
+   goroutine finished or gave up) the slot is held - for every outcome, the request still queued at shutdown included *)
+Theorem out_phases_covered : forall o, slot_covers false false (out_phases false o) = true.
+Proof.
+  intros [|[| |[| |[| | | | |[| | |]]]]]; reflexivity.
+Qed.
+
+(* the ordering in which the deferred closure of processOffer gets the flag by value (Release at return although the
+   transfer was started) does not have the property, for every way the started transfer can go *)
+Theorem out_early_release_not_covered : forall t,
+  slot_covers false false (out_phases true (OGot (PWorker (SReply (RAccepted t))))) = false.
+Proof. intros [| | |]; reflexivity. Qed.
+
+(* any number of outbound offers with any outcomes under any interleaving: in progress <= held = counter <= limit *)
+Theorem outbound_in_progress_bounded limit (os : list out_outcome) sched :
+  exists sem ts,
+    isched_run limit sched (0, map (fun o => it_start (out_phases false o)) os) = Ok (sem, ts) /\
+    (N.of_nat (n_inprog ts) <= sem) /\ sem = N.of_nat (n_held ts) /\ sem <= limit.
+Proof.
+  rewrite <- (map_map (out_phases false) it_start).
+  apply inbound_in_progress_bounded. apply Forall_forall. intros ps Hp. apply in_map_iff in Hp as (o & <- & _).
+  apply out_phases_covered.
+Qed.
+
+Theorem out_early_release_exceeds_limit :
+  exists sched sem ts,
+    isched_run 1 sched (0, map (fun o => it_start (out_phases true o))
+                              [OGot (PWorker (SReply (RAccepted TSuccess))); OGot (PWorker (SReply (RAccepted TSuccess)))]) = Ok (sem, ts) /\
+    n_inprog ts = 2%nat.
+Proof. exists [0; 0; 1]%nat. eexists. eexists. split; reflexivity. Qed.
+
+Theorem ostall_scenario_code :
+  ostall_scenario false 1 0 = Ok (0, 1) /\ ostall_scenario false 3 0 = Ok (2, 3) /\
+  ostall_scenario false 3 2 = Ok (0, 1) /\ ostall_scenario true 1 0 = Ok (1, 1).
+Proof. repeat split; vm_compute; reflexivity. Qed.
